@@ -2,8 +2,18 @@ package ai
 
 // Read-only access for the /verif harness (compiled in only through `go build -overlay`).
 
+import "github.com/nelhage/taktician/bitboard"
+
 // VerifTeSuffices runs teSuffices on a table entry with the given fields (hash and move do not enter the test).
 func VerifTeSuffices(value int64, bound byte, entryDepth int8, depth int, alpha, beta int64) bool {
 	te := tableEntry{value: value, bound: boundType(bound), depth: entryDepth}
 	return teSuffices(&te, depth, alpha, beta)
+}
+
+// VerifComputeInfluence runs computeInfluence on a copy of out and returns the counters it leaves there.
+func VerifComputeInfluence(size uint, mine uint64, out []uint64) []uint64 {
+	c := bitboard.Precompute(size)
+	o := append([]uint64{}, out...)
+	computeInfluence(&c, mine, o)
+	return o
 }
